@@ -16,7 +16,7 @@ from fractions import Fraction
 from .. import tae_conf
 from ..common import guards, short, src_fn, where, find_nodes
 from ..exprs import mentions, strip
-from ..mirlib import Expr, Program, expr_str
+from ..mirlib import op_const, op_place, Expr, Program, expr_str
 from ..tae import DIRS, DIR_OFF, TableError, Tables
 
 F = Fraction
@@ -328,6 +328,15 @@ def m2_rules(run):
                     if l[0] == "call" and l[1].endswith("::len") and mentions(l, lambda z: z[0] == "call" and z[1] == sp) and \
                             r[0] == "call" and r[1].endswith("::len") and not mentions(r, lambda z: z[0] == "call" and z[1] == sp):
                         ok = True
+        if not ok and not rec:
+            # the iterative form: `loop { let n = items.len(); let merged = second_pass_merge(items); if merged.len() >= n
+            # { return merged } items = merged }` (variant established by C01's loop rule, reused here)
+            from .c01 import shrinking_length_loop
+            var = shrinking_length_loop(prog, mr)
+            calls_sp = [t for _, t in prog.calls(mr) if Program.callee_name(t) == sp]
+            rets = [strip(r) for r in Expr(prog, mr).returns()]
+            returns_merged = bool(rets) and all(mentions(r, lambda z: z[0] == "call" and z[1] == sp) for r in rets)
+            ok = bool(var) and len(calls_sp) == 1 and returns_merged
         if ok:
             run.ok("C09.M2", "merge_recursive repeats second_pass_merge while the number of items shrinks", where(prog.bodies[mr]))
         else:
@@ -340,6 +349,42 @@ def m2_rules(run):
                     okp = True
         cl = prog.closures_of(sp)
         okc = any(any(Program.callee_name(t).endswith("Merge::merge") or ">::merge" in Program.callee_name(t) for _, t in prog.calls(c)) for c in cl)
+        if not (okp and okc):
+            # the same sweep written with a flag: `let mut merged = false; for g in groups.iter_mut().rev() { if let
+            # Some(m) = g.merge(&item) { *g = m; merged = true; break } } if !merged { groups.push(item) }`
+            spb = prog.bodies[sp]
+            sl_ = prog.slicer(sp)
+            merges = [(bid, t) for bid, t in prog.calls(sp) if Program.callee_name(t).endswith("Merge::merge") or ">::merge" in Program.callee_name(t)]
+            for bid, t in push:
+                for c, tk, sw in guards(prog, sp, bid, direct=True):
+                    pl = op_place(sw["on"]) if sw.get("on") else None
+                    if pl is None or pl["p"]:
+                        continue
+                    flag = pl["l"]
+                    # the flag may be a copy/negation of the named flag
+                    roots = {flag}
+                    for d in sl_.defs.get(flag, ()):
+                        if d[0] == "assign" and d[1]["rv"].get("k") in ("use", "un"):
+                            q = op_place(d[1]["rv"]["ops"][0])
+                            if q is not None and not q["p"]:
+                                roots.add(q["l"])
+                    for fl in roots:
+                        if spb["locals"][fl]["ty"] != "bool":
+                            continue
+                        sets_true = [(d[2], d[1]) for d in sl_.defs.get(fl, ()) if d[0] == "assign" and d[1]["rv"].get("k") == "use" and
+                                     (op_const(d[1]["rv"]["ops"][0]) or {}).get("int") == 1]
+                        sets_false = [d for d in sl_.defs.get(fl, ()) if d[0] == "assign" and d[1]["rv"].get("k") == "use" and
+                                      (op_const(d[1]["rv"]["ops"][0]) or {}).get("int") == 0]
+                        if sets_true and sets_false and merges:
+                            # every `flag = true` is control-dependent on the Some outcome of a merge call
+                            def after_some(b_):
+                                for c2, tk2, sw2 in guards(prog, sp, b_):
+                                    c2 = strip(c2)
+                                    if c2[0] == "discr" and mentions(c2, lambda z: z[0] == "call" and (z[1].endswith("Merge::merge") or ">::merge" in z[1])) and tk2 in (1, ("not", (0,))):
+                                        return True
+                                return False
+                            if all(after_some(b_) for b_, _ in sets_true):
+                                okp = okc = True
         if okp and okc:
             run.ok("C09.M2", "second_pass_merge pushes an item only when it merged with no existing group", where(prog.bodies[sp]))
         else:
